@@ -213,8 +213,12 @@ cdef class LegacyRecordBatch:
             pos += KEY_OFFSET_V0
 
         # Read key
+        self._check_bounds(pos, KEY_LENGTH)
         read_size = <Py_ssize_t> hton.unpack_int32(&buf[pos])
         pos += KEY_LENGTH
+        if read_size < -1:
+            raise CorruptRecordException(
+                "Invalid key size {}".format(read_size))
         if read_size != -1:
             self._check_bounds(pos, read_size)
             key = PyBytes_FromStringAndSize(&buf[pos], read_size)
@@ -222,8 +226,12 @@ cdef class LegacyRecordBatch:
         else:
             key = None
         # Read value
+        self._check_bounds(pos, VALUE_LENGTH)
         read_size = <Py_ssize_t> hton.unpack_int32(&buf[pos])
         pos += VALUE_LENGTH
+        if read_size < -1:
+            raise CorruptRecordException(
+                "Invalid value size {}".format(read_size))
         if read_size != -1:
             self._check_bounds(pos, read_size)
             value = PyBytes_FromStringAndSize(&buf[pos], read_size)
